@@ -81,6 +81,10 @@ func init() {
 			}
 			return Tuple{Slice{A: out}, Iface{}}
 		},
+		"runtime.Callers": func(in *Interp, fn *ssa.Function, a []Value) Value { return BVConstI(64, 0) }, // no stack frames (only used for error stack traces)
+		"runtime.Caller": func(in *Interp, fn *ssa.Function, a []Value) Value {
+			return Tuple{BVConstU(64, 0), concreteStr("?"), BVConstI(64, 0), tFalse}
+		},
 		"bytes.Compare": func(in *Interp, fn *ssa.Function, a []Value) Value {
 			x, y := a[0].(Slice), a[1].(Slice)
 			// lexicographic comparison as an ite chain (lengths are concrete)
